@@ -2,7 +2,9 @@
 
 Each float operation computes the exact real result x and then rounds: r = m * 2^(e-52) (m integer),
 |r - x| <= 2^(e-53), 2^e <= |r| <= 2^(e+1), with e ranging over the binades that interval analysis allows;
-ties are nondeterministic (a sound over-approximation of round-to-nearest-even).  Chosen because QF_FP with
+ties are nondeterministic.  The grid constraint itself is relaxed away (only |r - x| <= half an ulp is kept, plus the fact
+that doubles >= 2^53 are integers), which leaves pure linear real arithmetic – a sound over-approximation that the
+solver decides in milliseconds; the exact grid model needed minutes on the binade where the 5 microsecond bound is tight.  Chosen because QF_FP with
 division does not finish on any solver here and the relative-error model is too coarse (see DESIGN.md §2.2)."""
 from __future__ import annotations
 
@@ -52,6 +54,17 @@ def declare(eng, name, lo, hi):
     return rnd(eng, raw, Fraction(lo), Fraction(hi), name)
 
 
+def _flog2(q):
+    """floor(log2(q)) for a positive Fraction, exactly"""
+    q = Fraction(q)
+    e = q.numerator.bit_length() - q.denominator.bit_length()
+    while Fraction(2) ** e > q:
+        e -= 1
+    while Fraction(2) ** (e + 1) <= q:
+        e += 1
+    return e
+
+
 def rnd(eng, x, lo, hi, name=None):
     """round-to-nearest double of the real term x known to lie in [lo, hi]"""
     n = eng.__dict__.setdefault("_fcount", [0])
@@ -59,14 +72,17 @@ def rnd(eng, x, lo, hi, name=None):
     nm = name or ("fl!%d" % n[0])
     if lo <= 0 <= hi or hi < 0:
         raise Unsupported("rounding model needs a positive interval (got [%s, %s])" % (float(lo), float(hi)))
-    r, m = z3.Real(nm), z3.Int(nm + "!m")
-    e0 = math.floor(math.log2(lo)) - 1
-    e1 = math.floor(math.log2(hi)) + 1
+    r = z3.Real(nm)
+    # x in [lo, hi] rounds into [2^floor(log2 lo), 2^(floor(log2 hi)+1)]; case e admits r = 2^(e+1), so these binades suffice
+    e0 = _flog2(lo)
+    e1 = _flog2(hi)
     cases = []
     for e in range(e0, e1 + 1):
         ulp = Fraction(2) ** (e - 52)
         U = as_real(ulp)
-        cases.append(z3.And(r == z3.ToReal(m) * U, r - x <= U / 2, x - r <= U / 2,
+        # relaxation: the grid constraint r = m * ulp is dropped (only the half-ulp error bound is kept); the one
+        # consequence of the grid that matters here – doubles >= 2^53 are integers – is applied in to_int()/binop()
+        cases.append(z3.And(r - x <= U / 2, x - r <= U / 2,
                             as_real(Fraction(2) ** e) <= r, r <= as_real(Fraction(2) ** (e + 1))))
     eng.assume(z3.Or(*cases))
     slack = Fraction(2) ** (e1 - 52)
@@ -77,10 +93,12 @@ def rnd(eng, x, lo, hi, name=None):
 def binop(eng, t, a, b):
     (alo, ahi), (blo, bhi) = interval(eng, a), interval(eng, b)
     A, B = as_real(a), as_real(b)
-    # an int operand is converted to double first (rounds above 2^53)
-    if is_sym(a) and z3.is_int(a) and max(abs(alo), abs(ahi)) >= 2 ** 53:
+    # an int operand is converted to double first (rounds above 2^53) – unless it is the truncation of a double that
+    # was itself >= 2^53, hence already on the grid
+    exact = eng.__dict__.get("float_exact_ints", set())
+    if is_sym(a) and z3.is_int(a) and max(abs(alo), abs(ahi)) >= 2 ** 53 and a.get_id() not in exact:
         A = rnd(eng, A, alo, ahi)
-    if is_sym(b) and z3.is_int(b) and max(abs(blo), abs(bhi)) >= 2 ** 53:
+    if is_sym(b) and z3.is_int(b) and max(abs(blo), abs(bhi)) >= 2 ** 53 and b.get_id() not in exact:
         B = rnd(eng, B, blo, bhi)
     if t is ast.Add:
         x, lo, hi = A + B, alo + blo, ahi + bhi
@@ -109,6 +127,12 @@ def to_int(eng, x):
     n = eng.__dict__.setdefault("_fcount", [0])
     n[0] += 1
     k = z3.Int("trunc!%d" % n[0])
-    eng.assume(z3.And(z3.ToReal(k) <= x, x < z3.ToReal(k) + 1))
+    if lo >= 2 ** 53:
+        # a double of this magnitude is an integer: truncation is exact and the result converts back exactly
+        eng.assume(z3.ToReal(k) == x)
+        eng.__dict__.setdefault("float_exact_ints", set()).add(k.get_id())
+        eng.__dict__.setdefault("_keep", []).append(k)
+    else:
+        eng.assume(z3.And(z3.ToReal(k) <= x, x < z3.ToReal(k) + 1))
     eng.ranges["trunc!%d" % n[0]] = (math.floor(lo), math.floor(hi) + 1)
     return k
